@@ -47,7 +47,7 @@ pub fn k17_ascii_decision<const L: usize>() {
 pub fn k17_constructors_ascii<const L: usize>() {
     let bytes: [u8; L] = kani::any();
     kani::assume(all_ascii(&bytes) && !has_crlf(&bytes));
-    let s = std::str::from_utf8(&bytes).unwrap();
+    let s = unsafe { std::str::from_utf8_unchecked(&bytes) }; // ASCII by assumption
     let mut buf = Vec::new();
     match Utf32Str::new(s, &mut buf) {
         Utf32Str::Ascii(b) => assert!(b == &bytes[..], "the ASCII form holds the original bytes"),
@@ -166,6 +166,6 @@ pub fn k17_owned_accessors<const L: usize>() {
 pub fn k17_canary() {
     let bytes: [u8; 2] = kani::any();
     kani::assume(all_ascii(&bytes));
-    let s = std::str::from_utf8(&bytes).unwrap();
+    let s = unsafe { std::str::from_utf8_unchecked(&bytes) };
     assert!(has_ascii_graphemes(s));
 }
